@@ -14,13 +14,28 @@ def TM(name, fn, entry, cap=4, **kw):
     return d
 
 
+def ST(name, fn, entry, cap=4, **kw):
+    d = dict(name=name, tu=DRV, spec_headers=['spec/ghost.h', 'spec/tables_spec.h'], models=[],
+             harness='harness/c20_set.c', roots=['gdstk::Set<uint64_t>::' + fn], entry=entry, enforce='Set_uint64_t__' + fn,
+             replace=['hash_uint64_t__uint64_t'], kind='bounded',
+             bound='table capacity %d; histories, values and the hash function are arbitrary' % cap,
+             defines={'VF_CAP': cap, 'VF_CAPMAX': max(8, 2 * cap), 'VF_NO_TAGMAP': 1, 'VF_WITH_SET': 1}, unwind=max(8, 2 * cap) + 2,
+             timeout=1800, tier='quick', native_include=[DRV])
+    d.update(kw)
+    return d
+
+
 GROUPS = [
+    ST('set_get_slot', 'get_slot', 'h_st_get_slot', solver='cadical'),
+    ST('set_add_nogrow', 'add', 'h_st_add_nogrow', enforce='Set_uint64_t__add/Set_uint64_t__add_nogrow'),
+    ST('set_del', 'del', 'h_st_del'),
+    ST('set_has_value', 'has_value', 'h_st_has', solver='cadical'),
     TM('tagmap_get_slot', 'get_slot', 'h_tm_get_slot'),
     # set() with growth: the general contract (TagMap__set in contracts/tagmap.ct) and resize() did not
     # leave CBMC's propositional reduction within 30 min / 24 GB (see DESIGN.md, C20); they are NOT claimed.
-    # TM('tagmap_set', 'set', 'h_tm_set', replace=['hash_uint64_t__uint64_t', 'TagMap__resize', 'TagMap__del']),
+    # TM('tagmap_set', 'set', 'h_tm_set', replace=['hash_uint64_t__uint64_t', 'TagMap__resize', 'TagMap__del']),   (also tried with cadical: OOM before the solver)
     TM('tagmap_set_nogrow', 'set', 'h_tm_set_nogrow', enforce='TagMap__set/TagMap__set_nogrow'),
-    # TM('tagmap_resize', 'resize', 'h_tm_resize', replace=['TagMap__set/TagMap__set_nogrow']),
+    # TM('tagmap_resize', 'resize', 'h_tm_resize', replace=['TagMap__set/TagMap__set_nogrow']),   (cadical: timeout 30 min)
     TM('tagmap_del', 'del', 'h_tm_del'),
     TM('tagmap_get', 'get', 'h_tm_get'),
     TM('tagmap_has_key', 'has_key', 'h_tm_has'),
